@@ -55,13 +55,14 @@ fn main() {
                 "slab" => e1::slab(&mut rec, &mut rng, thorough, outdir),
                 "cm" => e3::cm(&mut rec, &mut rng, thorough),
                 "enc" => e3::enc(&mut rec, &mut rng, thorough),
-                "repair" => e3::repair(&mut rec, &mut rng, thorough),
-                "object" => e3::object(&mut rec, &mut rng, thorough),
-                "decblk" => { e3::decblk(&mut rec, &mut rng, thorough); e3::decblk_directed(&mut rec, &mut rng, thorough); }
+                "repair" => { e3::repair(&mut rec, &mut rng, thorough); e3::repair_plan_history(&mut rec, &mut rng, thorough); }
+                "object" => { e3::object(&mut rec, &mut rng, thorough); e3::object_many_symbols(&mut rec, &mut rng, thorough); }
+                "decblk" => { e3::decblk(&mut rec, &mut rng, thorough); e3::decblk_directed(&mut rec, &mut rng, thorough); e3::decblk_malformed(&mut rec, &mut rng, thorough); }
                 "decobj" => e3::decobj(&mut rec, &mut rng, thorough),
                 "inter" => e3::inter(&mut rec, &mut rng, thorough),
                 "overhead" => e3::overhead(&mut rec, &mut rng, thorough),
                 "configs" => e3::configs(&mut rec, &mut rng, thorough, outdir, seed),
+                "workload" => e3::workload_only(&mut rec, thorough, outdir, seed),
                 "fastpath" => e3::fastpath(&mut rec, &mut rng, thorough),
                 "solver" => e3::solver(&mut rec, &mut rng, thorough),
                 "plan" => e3::plan(&mut rec, &mut rng, thorough),
